@@ -127,14 +127,14 @@ class Ref(Val):
 
 
 class Closure(Val):
-    __slots__ = ('key', 'items', 'names')
+    __slots__ = ('key', 'items', 'names', 'parent')
 
-    def __init__(self, key, items, names=None):
-        self.key, self.items, self.names = key, tuple(items), names
+    def __init__(self, key, items, names=None, parent=None):
+        self.key, self.items, self.names, self.parent = key, tuple(items), names, parent
 
     def with_item(self, i, v):
         it = list(self.items); it[i] = v
-        return Closure(self.key, it, self.names)
+        return Closure(self.key, it, self.names, self.parent)
 
     def __repr__(self): return f'Closure({self.key[-24:]}, {list(self.items)})'
 
@@ -184,13 +184,18 @@ class VecV(Val):
 
 class StrV(Val):
     """String / str / KString model: a path-concrete number of chars; each char is a python int (concrete) or z3 BV32"""
-    __slots__ = ('chars', 'ty')
+    __slots__ = ('chars', 'ty', 'facts')
 
-    def __init__(self, chars, ty='str'):
+    def __init__(self, chars, ty='str', facts=None):
         if isinstance(chars, str): chars = [ord(c) for c in chars]
-        self.chars, self.ty = tuple(chars), ty
+        self.chars, self.ty, self.facts = tuple(chars), ty, facts
+
+    def retag(self, ty):
+        """same text as another string type (copies keep abstract facts such as parse results)"""
+        return StrV(self.chars, ty, self.facts)
 
     def concrete(self):
+        if self.facts is not None: return None
         out = []
         for c in self.chars:
             if isinstance(c, int): out.append(chr(c))
@@ -201,6 +206,7 @@ class StrV(Val):
         return ''.join(out)
 
     def __repr__(self):
+        if self.facts is not None: return f'AbsStr<{self.ty}>({self.facts.get("name")})'
         c = self.concrete()
         return ('s' + repr(c)) if c is not None else f'Str{list(self.chars)}'
 
@@ -238,3 +244,13 @@ def Ok(v): return Adt('Result', 'Ok', [v])
 
 
 def Err(v): return Adt('Result', 'Err', [v])
+
+
+def fp_to_float(v):
+    """concrete z3 FP numeral (Float64) -> python float, bit-exact"""
+    import struct
+    bv = z3.simplify(z3.fpToIEEEBV(v))
+    if not z3.is_bv_value(bv):
+        if v.isNaN(): return float('nan')
+        raise ValueError('not a concrete FP value')
+    return struct.unpack('<d', struct.pack('<Q', bv.as_long()))[0]
